@@ -12,6 +12,7 @@ package internal
 //@   requires c != nil && len(c.Goroutines) >= 1 && out != nil
 //@   modifies ghost:wlen, ghost:wdata, ghost:werrs at out
 //@   ensures wlen(out) >= old(wlen(out)) && (forall k :: 0 <= k && k < old(wlen(out)) ==> wdata(out)[k] == old(wdata(out))[k])
+//@   ensures result != io.EOF
 
 // process: the reader handed to the next ScanSnapshot call always continues
 // the original stream exactly where the previous call stopped; forwarded
@@ -25,6 +26,9 @@ package internal
 //@   gvar unconsumed int = zero
 //@   update after-call Write#1: flushed := ret0; flushErr := ret1
 //@   update after-call ScanSnapshot#1: unconsumed := len(ret1)
+//@   gvar lastErr error = zero
+//@   update after-call ScanSnapshot#1: lastErr := ret2
+//@   at-return [stopsOnlyAtEndOfInputOrOnError C02 C07] result == nil ==> lastErr == io.EOF
 //@   assert after-call MultiReader#1: [scanningResumesAtFirstUnconsumedByte C07] N(ret0) - fetched(ret0) == unconsumed + (N(in) - fetched(in))
 //@   assert after-call ScanSnapshot#1: [forwardedBytesAreOriginalBytesInOrder C02 C07 needs=streamResumesExactly+forwardedIsStreamPrefix+fetchedGrows+nothingBeforeForwardedIsHeld] forall j :: pre(wlen(out)) <= j && j < wlen(out) ==> wdata(out)[j] == S(old(in), N(old(in)) - (N(in) - pre(fetched(in))) + (j - pre(wlen(out))))
 //@   at-return [remainderFlushedAtEndOfInput C02] result == nil && len(suffix) != 0 ==> flushed == len(suffix) && flushErr == nil
